@@ -603,3 +603,49 @@ add("C02", "unused-import-remover-by-name", "codemodder/codemods/transformations
 add("C16", "https-updated-args-prefix-only", "core_codemods/https_connection.py",
     [("        new_args = list(original_args)\n        if self.count_positional_args(new_args) == 10:\n            new_args[9] = new_args[9].with_changes(\n                keyword=cst.parse_expression(\"_proxy_config\")\n            )\n        return new_args", "        if self.count_positional_args(original_args) == 10:\n            return [*original_args[:9], original_args[9].with_changes(keyword=cst.parse_expression(\"_proxy_config\"))]\n        return list(original_args)")],
     "fire", "R-ARGS-PRESERVED", "updated_args")
+
+# --------------------------------------------------------------------------- spelling-independence of R-LINE-SUFFIX / match_files-args / R-RULE-KEYED
+_FF_OLD = "    patterns = (\n        [x.split(\":\")[0] for x in (patterns or [])]\n        if not exclude\n        # An excluded line should not cause the entire file to be excluded\n        else [x for x in (patterns or []) if \":\" not in x]\n    )\n"
+add("C05", "benign-filter-files-if-statement", CD,
+    [(_FF_OLD, "    given = patterns or []\n    if exclude:\n        globs = [p for p in given if p.count(\":\") == 0]\n    else:\n        globs = [p.partition(\":\")[0] for p in given]\n    patterns = globs\n")],
+    "silent")
+add("C05", "benign-filter-files-early-return", CD,
+    [(_FF_OLD, "    if exclude:\n        patterns = list(filter(lambda p: \":\" not in p, patterns or []))\n    else:\n        patterns = list(map(lambda p: p.split(\":\", 1)[0], patterns or []))\n")],
+    "silent")
+add("C05", "include-drops-line-patterns", CD,
+    [(_FF_OLD, "    patterns = [x for x in (patterns or []) if \":\" not in x]\n")],
+    "fire", "R-LINE-SUFFIX", "filter_files")
+add("C05", "exclude-raw-if-statement", CD,
+    [(_FF_OLD, "    given = patterns or []\n    if exclude:\n        patterns = list(given)\n    else:\n        patterns = [p.partition(\":\")[0] for p in given]\n")],
+    "fire", "R-LINE-SUFFIX", "filter_files")
+add("C05", "benign-context-forwarding-helper", CTXF,
+    [("        return match_files(\n            self.directory,\n            self.files_to_analyze,\n            # None is effectively a sentinel value to indicate that the default include/exclude paths should be used\n            self.path_exclude or None,\n            self.path_include or None,\n        )\n",
+      "        # None is effectively a sentinel value to indicate that the default include/exclude paths should be used\n        return self._match(self.files_to_analyze, self.path_exclude or None, self.path_include or None)\n\n    def _match(self, candidates, excludes, includes):\n        return match_files(self.directory, candidates, exclude_paths=excludes, include_paths=includes)\n"),
+     ("        return match_files(\n            self.directory,\n            paths,\n            self.path_exclude,\n            self.included_paths,\n        )\n",
+      "        return self._match(paths, self.path_exclude, self.included_paths)\n")],
+    "silent")
+add("C05", "forwarding-helper-swaps", CTXF,
+    [("        return match_files(\n            self.directory,\n            paths,\n            self.path_exclude,\n            self.included_paths,\n        )\n",
+      "        return self._match(paths, self.path_exclude, self.included_paths)\n\n    def _match(self, candidates, excludes, includes):\n        return match_files(self.directory, candidates, exclude_paths=includes, include_paths=excludes)\n")],
+    "fire", "R-FILESET-SOURCE", "filter_paths")
+_PF_OLD = "        findings_for_rule = None\n        if results is not None:\n            findings_for_rule = []\n            for rule in rules:\n                findings_for_rule.extend(\n                    results.results_for_rule_and_file(context, rule, filename)\n                )\n            logger.debug(\"%d findings for %s\", len(findings_for_rule), filename)\n"
+_SC_OLD = "        if results is not None and not findings_for_rule:\n            logger.debug(\"no findings for %s, short-circuiting analysis\", filename)\n            return file_context\n"
+add("C06", "benign-process-file-respelled", BC,
+    [(_PF_OLD, "        findings_for_rule = None\n        if results is not None:\n            findings_for_rule = [\n                finding\n                for rule_id in rules\n                for finding in results.results_for_rule_and_file(context, rule_id, filename)\n            ]\n"),
+     (_SC_OLD, "        has_detector = results is not None\n        if has_detector and len(findings_for_rule) == 0:\n            return file_context\n")],
+    "silent")
+add("C06", "benign-short-circuit-nested", BC,
+    [(_SC_OLD, "        if results is not None:\n            if not findings_for_rule:\n                return file_context\n")],
+    "silent")
+add("C06", "short-circuit-or-instead-of-and", BC,
+    [(_SC_OLD, "        if results is None and not findings_for_rule:\n            return file_context\n")],
+    "fire", "R-RULE-KEYED", "_process_file")
+add("C06", "findings-comprehension-filters-nothing-but-wrong-file", BC,
+    [(_PF_OLD, "        findings_for_rule = None\n        if results is not None:\n            findings_for_rule = [\n                finding\n                for rule_id in rules\n                for finding in results.results_for_rule_and_file(context, rule_id, context.directory / filename.name)\n            ]\n")],
+    "fire", "R-RULE-KEYED", "_process_file")
+add("C06", "benign-lookup-respelled", "codemodder/result.py",
+    [("        return self.get(rule_id, {}).get(file.relative_to(context.directory), [])", "        by_file = self.get(rule_id) or {}\n        relative = file.relative_to(context.directory)\n        return by_file.get(relative, [])")],
+    "silent")
+add("C06", "lookup-by-absolute-file", "codemodder/result.py",
+    [("        return self.get(rule_id, {}).get(file.relative_to(context.directory), [])", "        return self.get(rule_id, {}).get(file, [])")],
+    "fire", "R-RULE-KEYED", "results_for_rule_and_file")
